@@ -22,7 +22,7 @@ fn nul() -> AppliedId {
 impl Drv for Arith {
     const NAME: &'static str = "Arith";
     fn sig() -> Sig {
-        &[("lam", "b"), ("app", "cc"), ("var", "s"), ("let", "bc"), ("add", "cc"), ("mul", "cc"), ("0", ""), ("42", ""), ("map", ""), ("a-b", ""), ("a:=b", ""), ("a,b", ""), ("a==b", "")]
+        &[("lam", "b"), ("app", "cc"), ("var", "s"), ("let", "bc"), ("add", "cc"), ("mul", "cc"), ("0", ""), ("42", ""), ("map", ""), ("a-b", ""), ("a:=b", ""), ("a,b", ""), ("a==b", ""), ("call-f", "c"), ("call-42", "c")]
     }
     fn mk(op: &str, s: &[Slot]) -> Self {
         match op {
@@ -34,6 +34,9 @@ impl Drv for Arith {
             "mul" => Arith::Mul(nul(), nul()),
             "0" => Arith::Number(0),
             "42" => Arith::Number(42),
+            // an operator with a payload of its own next to a child; printed `(call f <child>)`
+            "call-f" => Arith::Call(Symbol::from("f"), nul()),
+            "call-42" => Arith::Call(Symbol::from("42"), nul()),
             o => Arith::Symbol(Symbol::from(o)),
         }
     }
